@@ -12,7 +12,7 @@
 (*                                                                          *)
 (* The argument universes are supplied by the MC_* instance through the     *)
 (* constant operator ArgsOf(name, heap).                                    *)
-EXTENDS Universe, Sem, Json
+EXTENDS Universe, Sem, Geometry, Json
 
 CONSTANTS ArgsOf(_, _, _),   \* action name, heap, depth  ->  set of argument records
           InitHeaps,         \* set of initial heaps
@@ -294,6 +294,88 @@ CvSetKnotvector ==   \* curve.knotvector = V
                RetRel("ok", <<>>, IF c.W = <<>> THEN "exact" ELSE "sem"))
      ELSE Step([name |-> "CvSetKnotvector"] @@ a, heap, RetRel("any", <<>>, "sem"))
 
+RECURSIVE SetToSortedPairs(_)
+SetToSortedPairs(S) ==
+  IF S = {} THEN <<>>
+  ELSE LET m == CHOOSE x \in S : \A y \in S : Lt(x[1], y[1]) \/ (x[1] = y[1] /\ Le(x[2], y[2]))
+       IN <<m>> \o SetToSortedPairs(S \ {m})
+
+(* ---- generators (C18) ------------------------------------------------------ *)
+GenValue(a) ==
+  CASE a.kind = "bezier"  -> BezierKV(a.p)
+    [] a.kind = "integer" -> IntegerKV(a.p, a.n)
+    [] a.kind = "uniform" -> UniformKV(a.p, a.n)
+    [] a.kind = "weight"  -> WeightKV(a.p, a.w)
+KvGen ==
+  \E a \in ArgsOf("KvGen", heap, depth) :
+     Step([name |-> "KvGen"] @@ a, [heap EXCEPT ![a.obj] = KvObj(GenValue(a))], Ret("ok", <<>>))
+
+(* ---- calculus (C09, C10) ---------------------------------------------------- *)
+(* Derivate(C): pure; ret = table <<u, C'(u)>> on interior points of every span    *)
+CvDerivate ==
+  \E a \in ArgsOf("CvDerivate", heap, depth) :
+     LET c == AsCurve(heap[a.obj])
+         S == SeqOfSet(InteriorGrid(c.U, Deg(c.U) + 1)) IN
+     Step([name |-> "CvDerivate"] @@ a, heap,
+          Ret("ok", [i \in 1..Len(S) |-> <<S[i], IF Deg(c.U) = 0 THEN Zero ELSE DEval(c, S[i])>>]))
+
+(* Integrate.scalar(C) with the default rule: exact *)
+CvIntegrate ==
+  \E a \in ArgsOf("CvIntegrate", heap, depth) :
+     LET c == AsCurve(heap[a.obj]) IN
+     Step([name |-> "CvIntegrate"] @@ a, heap, Ret("ok", IntegralClosedForm(c)))
+
+(* memo tables of quadrature rules.  fn in {"nodes_closed","nodes_open","nodes_cheby","nodes_gauss", *)
+(* "w_closed","w_open","w_cheby","w_gauss"}; the tables only grow, answers depend on (fn, n) only *)
+MemoAfter(m, fn, n) ==
+  CASE fn \in {"nodes_cheby", "nodes_gauss", "w_closed", "w_open", "w_gauss"} -> [m EXCEPT ![fn] = @ \cup {n}]
+    [] fn = "w_cheby" -> IF n \in m["w_cheby"] THEN m
+                         ELSE [m EXCEPT !["w_cheby"] = @ \cup {n}, !["nodes_cheby"] = @ \cup {n}]
+    [] OTHER -> m
+OpenNCWeights(n) ==
+  CASE n = 1 -> <<One>>
+    [] n = 2 -> <<Half, Half>>
+    [] n = 3 -> <<Q(3, 8), Q(1, 4), Q(3, 8)>>
+    [] n = 4 -> <<Q(13, 48), Q(11, 48), Q(11, 48), Q(13, 48)>>
+    [] n = 5 -> <<Q(275, 1152), Q(100, 1152), Q(402, 1152), Q(100, 1152), Q(275, 1152)>>
+OpenNodes(n) == [i \in 1..n |-> Q(2 * i - 1, 2 * n)]
+ASSUME \A n \in 1..5 : MomentsExact(OpenNodes(n), OpenNCWeights(n), n)
+RuleValue(fn, n) ==
+  CASE fn = "nodes_closed" -> NCNodes(n)
+    [] fn = "nodes_open"   -> OpenNodes(n)
+    [] fn = "w_closed"     -> NCWeights(n)
+    [] fn = "w_open"       -> OpenNCWeights(n)
+    [] OTHER               -> <<>>                 \* irrational families: judged numerically by the harness
+MemoRequest ==
+  \E a \in ArgsOf("MemoRequest", heap, depth) :
+     /\ heap' = heap /\ act' = [name |-> "MemoRequest"] @@ a /\ depth' = depth + 1
+     /\ memo' = MemoAfter(memo, a.fn, a.n)
+     /\ ret' = Ret("ok", RuleValue(a.fn, a.n))
+
+(* ---- fitting (C11, C12): the receiving curve a gets new control points; judged by Sem clauses ----*)
+CvFitCurve ==
+  \E a \in ArgsOf("CvFitCurve", heap, depth) :
+     Step([name |-> "CvFitCurve"] @@ a, heap, RetRel("ok", <<>>, "sem"))
+CvFitPoints ==
+  \E a \in ArgsOf("CvFitPoints", heap, depth) :
+     LET ok == Len(a.data) >= Npts(heap[a.obj].U) IN
+     Step([name |-> "CvFitPoints"] @@ a, heap, RetRel(IF ok THEN "ok" ELSE "Error", <<>>, "sem"))
+CvFitFunction ==    \* fit_function(f) with f = evaluation of a curve of the same space: reproduced exactly
+  \E a \in ArgsOf("CvFitFunction", heap, depth) :
+     Step([name |-> "CvFitFunction"] @@ a, CvOut(a.obj, a.src), RetRel("ok", <<>>, "exact"))
+
+(* ---- geometry (C19, C20): polylines, exact answers ---------------------------------------------*)
+GeoProject ==
+  \E a \in ArgsOf("GeoProject", heap, depth) :
+     LET r == NearestSet(a.curve, a.px, a.py) IN
+     /\ heap' = heap /\ act' = [name |-> "GeoProject"] @@ a /\ depth' = depth + 1 /\ UNCHANGED memo
+     /\ ret' = Ret("ok", [d2 |-> r.d2, us |-> r.us])
+GeoIntersect ==
+  \E a \in ArgsOf("GeoIntersect", heap, depth) :
+     LET r == Crossings(a.A, a.B) IN
+     /\ heap' = heap /\ act' = [name |-> "GeoIntersect"] @@ a /\ depth' = depth + 1 /\ UNCHANGED memo
+     /\ ret' = Ret("ok", [inclass |-> r.inclass, pairs |-> SetToSortedPairs(r.pairs)])
+
 -----------------------------------------------------------------------------
 Next == /\ depth < MaxDepth
         /\ \/ KvNew \/ KvInsert \/ KvRemove \/ KvShift \/ KvScale \/ KvNormalize
@@ -301,6 +383,8 @@ Next == /\ depth < MaxDepth
            \/ CvEval \/ FnBasis \/ CvKnotInsert \/ CvDegreeIncrease \/ CvSplit
            \/ CvKnotRemove \/ CvDegreeDecrease \/ CvClean \/ CvJoin \/ CvArith \/ CvScalar
            \/ CvEq \/ CvCopy \/ CvFraction \/ CvSetCtrlpoints \/ CvSetKnotvector \/ CvSplitTake
+           \/ KvGen \/ CvDerivate \/ CvIntegrate \/ MemoRequest \/ CvFitCurve \/ CvFitPoints \/ CvFitFunction
+           \/ GeoProject \/ GeoIntersect
 
 Spec == Init /\ [][Next]_vars
 
@@ -345,12 +429,52 @@ SplitRestricts ==
              /\ Limits(ps[i].U) = <<cs[i], cs[i + 1]>>
              /\ RestrictsTo(c, ps[i])]_vars
 
+(* C17: U|V is the coarsest common refinement, U&V (equal degrees) the per-knot minimum *)
+UnionIsCoarsest ==
+  [][(act'.name = "KvOr" /\ ret'.class = "ok") =>
+        LET U == heap[act'.obj].U V == act'.other W == ret'.val IN
+        /\ Deg(W) = (IF Deg(U) > Deg(V) THEN Deg(U) ELSE Deg(V))
+        /\ \A x \in KnotSet(W) \ {Umin(W), Umax(W)} :
+              LET W2 == RemoveOne(W, x) IN ~(Refines(W2, U) /\ Refines(W2, V))
+        /\ UnionKV(V, U).kv = W /\ UnionKV(W, W).kv = W /\ UnionKV(U, U).kv = U]_vars
+InterProps ==
+  [][(act'.name = "KvAnd" /\ ret'.class = "ok") =>
+        LET U == heap[act'.obj].U V == act'.other W == ret'.val IN
+        /\ IsKnotVector(W) /\ Refines(U, W) /\ Refines(V, W)
+        /\ \A x \in KnotSet(U) \cup KnotSet(V) :
+              MultOf(W, x) = (IF MultOf(U, x) < MultOf(V, x) THEN MultOf(U, x) ELSE MultOf(V, x))
+        /\ InterKV(V, U).kv = W /\ InterKV(U, U).kv = U]_vars
+
 (* C17: | and & results *)
 UnionProps ==
   [][(act'.name \in {"KvOr", "KvIOr"} /\ ret'.class = "ok") =>
         LET U == heap[act'.obj].U V == act'.other
             W == IF act'.name = "KvOr" THEN ret'.val ELSE heap'[act'.obj].U IN
         IsKnotVector(W) /\ Refines(W, U) /\ Refines(W, V)]_vars
+
+(* C10: the memo tables only grow and the answer is a function of the key *)
+MemoMonotone == [][\A f \in DOMAIN memo : memo[f] \subseteq memo'[f]]_vars
+(* C09: the value-based derivative agrees with the control-point formula (oracle cross-check) *)
+DerivFormulaAgrees ==
+  [][(act'.name = "CvDerivate" /\ heap[act'.obj].W = <<>> /\ Deg(heap[act'.obj].U) >= 1) =>
+        \A i \in DOMAIN ret'.val :
+           ret'.val[i][2] = DerivFormulaEval(heap[act'.obj].U, heap[act'.obj].P, ret'.val[i][1])]_vars
+(* C10: closed form of the spline integral equals exact quadrature *)
+IntegralAgrees ==
+  [][act'.name = "CvIntegrate" => ret'.val = IntegralOf(AsCurve(heap[act'.obj]))]_vars
+(* C18: generated vectors *)
+GenProps ==
+  [][act'.name = "KvGen" =>
+        LET U == heap'[act'.obj].U a == act' IN
+        /\ IsKnotVector(U) /\ Deg(U) = a.p
+        /\ (a.kind \in {"integer", "uniform"} => Npts(U) = a.n)
+        /\ (a.kind = "weight" => Npts(U) = a.p + Len(a.w))
+        /\ (a.kind = "bezier" => Npts(U) = a.p + 1)
+        /\ \A x \in KnotSet(U) \ {Umin(U), Umax(U)} : MultOf(U, x) = 1
+        /\ (a.kind \in {"bezier", "uniform"} => Limits(U) = <<Zero, One>>)
+        /\ (a.kind \in {"integer", "uniform"} =>
+               LET ks == Knots(U) IN \A i \in 1..(Len(ks) - 2) : Sub(ks[i + 1], ks[i]) = Sub(ks[i + 2], ks[i + 1]))
+        /\ (a.kind = "weight" => LET ks == Knots(U) IN \A i \in 1..Len(a.w) : Sub(ks[i + 1], ks[i]) = a.w[i])]_vars
 
 (* C05 / C06: the model's own removal / reduction transitions satisfy the relational clauses *)
 RemoveExactOrRefused ==
@@ -379,6 +503,6 @@ ObjQueries(o) ==
   IF o.kind = "kv" THEN [view |-> KvView(o.U),
                          q |-> LET S == SeqOfSet(ParamGridQ(o.U)) IN [i \in 1..Len(S) |-> QueryRow(o.U, S[i])]]
   ELSE [view |-> <<>>, q |-> <<>>]
-Log == PrintT(ToJson([d |-> depth', pre |-> heap, act |-> act', ret |-> ret', post |-> heap',
+Log == PrintT(ToJson([d |-> depth', pre |-> heap, act |-> act', ret |-> ret', post |-> heap', mpre |-> memo, mpost |-> memo',
                       obs |-> [o \in DOMAIN heap' |-> ObjQueries(heap'[o])]]))
 =============================================================================
